@@ -46,6 +46,9 @@ CHECKS = {
  "C06": dict(engine="pipeline", technique="differential property testing: generated pull pipelines (from_iter, map, filter, scan, take, skip, concat!, map-then-flatten, for_each, pipe!) against the same program written with std::iter adaptors, plus next()-call accounting per iterator",
              text="Programs are generated from a grammar (nesting depth <= 3, finite and unbounded inputs); oracle: arguments of f == reference Vec, Terminate reaches for_each before the subscribing call returns, every from_iter leaf advanced exactly items+exhaustion times and never ahead of Pulls, per-subscription consumption equals the lazy reference's, and pipe!(a, f1..fk) gives the same history as fk(..f1(a)).", ref="DESIGN.md §4 C06",
              note="Trusted base: std::iter adaptors as the reference, the harness taps and counting iterators, the oracle code. Closures come from small tables of pure functions; unbounded inputs are cut off after 5000 items so a pipeline that fails to stop shows up as a wrong result, not a hang. Bounded exploration, never a proof."),
+ "C16": dict(engine="clock", technique="model-based property testing on a virtual clock: interval driven by a harness-owned mock Nurse+Timer (injected spawn failures, generated expiry/disposal orders) against a per-subscription tick model",
+             text="The executor is supplied through interval's public generic parameter; the harness owns time and polling. Oracle: back-to-back sleep(period) requests, exactly one Data(k) per completed sleep counting from 0 per subscription, nothing from the first tick at which the disposal is visible, the task finishes at that wake-up without another sleep (no leaked timer), and a failed spawn yields exactly one Error carrying the injected NurseErr.", ref="DESIGN.md §4 C16",
+             note="Trusted base: the mock executor (tasks polled only by the harness, sleep pending until fired, no time passes during a poll), probes, oracle code. Real-timer drift and a tick overtaking the greeting on a preemptive executor are not explored."),
 }
 
 def main():
@@ -81,6 +84,8 @@ def main():
         "engines": [
             {"name": "world", "path": "harness/src/world.rs", "serves_properties": [p for p in ids if CHECKS.get(p, {}).get("engine") == "world"],
              "kind_free_text": "scenario interpreter: real crate operators between harness-owned puppet sources and probe sinks; proptest-generated byte strings decoded into scenarios; pure oracles over the recorded history"},
+            {"name": "clock", "path": "harness/src/clock.rs", "serves_properties": ["C16", "C01", "C02", "C03", "C13", "C17"],
+             "kind_free_text": "virtual-time executor (mock Nurse + Timer) driving the crate's interval; also feeds one case in eight of C01/C02/C03/C13/C17"},
             {"name": "pipeline", "path": "harness/src/pipeline.rs", "serves_properties": [p for p in ids if CHECKS.get(p, {}).get("engine") == "pipeline"],
              "kind_free_text": "grammar-generated iterable programs run through the real crate (built with pipe!) and through std::iter as the reference"},
         ],
